@@ -5,7 +5,8 @@
 (* loop, two distance patterns.  The environment is free: every call may change the fixed flag of the   *)
 (* object it is made on and of its partner, has_atom() may answer either way, try_both may return 0/1.  *)
 EXTENDS Naturals, Integers, Sequences, FiniteSets, TLC
-CONSTANTS N, Pattern
+CONSTANTS N, Pattern,
+          Symmetric   \* TRUE: contacts are mutual (as distances are); FALSE: deviation - detection may see a contact from one side only
 VARIABLES inst, fixed, flags, pc, oi, nets, ni, q, sub, res, ci, calls
 S == INSTANCE HbondSched
 mcvars == <<inst, fixed, flags, pc, oi, nets, ni, q, sub, res, ci, calls>>
@@ -15,18 +16,19 @@ Acc(t) == t \in {"A", "DA"}
 \* the eligibility rule of the detection loop for atom (type t) and a close atom (type u)
 Eligible(t, u) == /\ ~(Don(t) /\ ~Acc(t) /\ ~Acc(u))
                   /\ ~(Acc(t) /\ ~Don(t) /\ ~Don(u))
-Pairs == {p \in (0..N) \X (1..N) : p[1] < p[2]}
+Pairs == {p \in (0..N) \X (0..N) : IF Symmetric THEN p[1] < p[2] /\ p[2] >= 1 ELSE p[1] # p[2]}
 Dist(a, b) == IF Pattern = 1 THEN 1 ELSE IF a = 0 \/ b = 0 THEN a + b ELSE (a * b) % 3
 TypeOf(ty, k) == IF k = 0 THEN "DA" ELSE ty[k]
 SeqOfSet(s) == CHOOSE f \in [1..Cardinality(s) -> s] : \A i, j \in 1..Cardinality(s) : i < j => f[i] < f[j]
 HbOf(o, ty, wat, adj) ==
-  LET targets == {t \in 0..N : t # o /\ (<<t, o>> \in adj \/ <<o, t>> \in adj) /\ Eligible(ty[o], TypeOf(ty, t))}
+  LET targets == {t \in 0..N : t # o /\ (<<o, t>> \in adj \/ (Symmetric /\ <<t, o>> \in adj)) /\ Eligible(ty[o], TypeOf(ty, t))}
       ts == SeqOfSet(targets)
   IN [k \in 1..Len(ts) |-> [a |-> o + 1, b |-> ts[k] + 1, d |-> Dist(o, ts[k]),
                            al |-> ts[k] # 0, ob |-> ts[k],
                            wa |-> wat[o], wb |-> IF ts[k] = 0 THEN FALSE ELSE wat[ts[k]], na |-> "X", nb |-> "Y"]]
 Instances == {[n |-> N, ty |-> ty, hb |-> [o \in 1..N |-> HbOf(o, ty, wat, adj)]] :
-                ty \in [1..N -> Types], wat \in [1..N -> BOOLEAN], adj \in SUBSET Pairs}
+                ty \in (IF Symmetric THEN [1..N -> Types] ELSE {[k \in 1..N |-> "DA"]}),
+                wat \in (IF Symmetric THEN [1..N -> BOOLEAN] ELSE {[k \in 1..N |-> FALSE]}), adj \in SUBSET Pairs}
 \* atom ids: backbone atom = 1, atom of object o = o + 1
 Init == /\ inst \in Instances /\ fixed \in [1..N -> BOOLEAN] /\ S!Init0
         /\ flags = [x \in 1..(N + 1) |-> [d |-> Don(TypeOf(inst.ty, x - 1)), a |-> Acc(TypeOf(inst.ty, x - 1))]]
